@@ -5,6 +5,7 @@ package main
 
 import (
 	"bytes"
+	"math/big"
 	"context"
 	"encoding/json"
 	"fmt"
@@ -30,6 +31,7 @@ type replayGen struct {
 	helper map[string]bool
 	o      *Obligation
 	fail   string
+	solid  bool
 }
 
 func (g *replayGen) qual(p *types.Package) string {
@@ -221,6 +223,10 @@ func (g *replayGen) lit(v Value, t types.Type) string {
 			}
 		}
 	case *AbsObj:
+		if g.solid {
+			bt := x.bb.(*Tuple)
+			return fmt.Sprintf("verifSolid%d(%s)", x.dim, g.lit(bt, bt.typ))
+		}
 		return g.stubShape(x)
 	case *Func:
 		if x.abs != nil {
@@ -571,6 +577,62 @@ func verifIte[T any](c bool, a, b T) T {
 var _ = reflect.DeepEqual
 var _ = v2.Vec{}
 var _ = v3.Vec{}
+
+// verifRegion: a search region around the shape under test and the model point.
+func verifRegion(r any, m any) (lo, hi [3]float64) {
+	for i := range lo {
+		lo[i], hi[i] = -1, 1
+	}
+	grow := func(x, y, z float64) {
+		for i, v := range [3]float64{x, y, z} {
+			lo[i] = math.Min(lo[i], v)
+			hi[i] = math.Max(hi[i], v)
+		}
+	}
+	switch p := m.(type) {
+	case v3.Vec:
+		grow(p.X, p.Y, p.Z)
+	case v2.Vec:
+		grow(p.X, p.Y, 0)
+	}
+	switch s := r.(type) {
+	case interface{ BoundingBox() SDFPKG_Box3 }:
+		if !reflect.ValueOf(s).IsNil() {
+			b := s.BoundingBox()
+			grow(b.Min.X, b.Min.Y, b.Min.Z)
+			grow(b.Max.X, b.Max.Y, b.Max.Z)
+		}
+	case interface{ BoundingBox() SDFPKG_Box2 }:
+		if !reflect.ValueOf(s).IsNil() {
+			b := s.BoundingBox()
+			grow(b.Min.X, b.Min.Y, 0)
+			grow(b.Max.X, b.Max.Y, 0)
+		}
+	}
+	for i := range lo {
+		d := hi[i] - lo[i]
+		lo[i] -= 0.75*d + 0.013
+		hi[i] += 0.75*d + 0.017
+	}
+	return
+}
+
+// solid operands: a library box that is solid on exactly the model's operand box
+func verifSolid2(b SDFPKG_Box2) SDFPKG_SDF2 {
+	size := b.Size()
+	if size.X <= 0 || size.Y <= 0 {
+		size = size.Max(v2.Vec{1e-6, 1e-6})
+	}
+	return SDFPKG_Transform2D(SDFPKG_Box2D(size, 0), SDFPKG_Translate2d(b.Center()))
+}
+func verifSolid3(b SDFPKG_Box3) SDFPKG_SDF3 {
+	size := b.Size()
+	if size.X <= 0 || size.Y <= 0 || size.Z <= 0 {
+		size = size.Max(v3.Vec{1e-6, 1e-6, 1e-6})
+	}
+	s, _ := SDFPKG_Box3D(size, 0)
+	return SDFPKG_Transform3D(s, SDFPKG_Translate3d(b.Center()))
+}
 `
 
 // replayOnRealCode builds and runs the replay test. Returns a JSON-able record.
@@ -588,9 +650,40 @@ func replayOnRealCode(e *Engine, o *Obligation) map[string]interface{} {
 	// complete model: re-solve with all assumptions
 	model := o.res.model
 	full := append(append([]*Term{}, o.assume...), mkNot(o.goal))
-	r2 := solveQuery(full, []string{"full model for replay"}, "", 30*time.Second, false)
-	if r2.status == "sat" {
-		model = r2.model
+	// prefer a robust witness: non-degenerate operand boxes, moderate magnitudes
+	var extras []*Term
+	half := mkRat(big.NewRat(1, 2), SReal)
+	var inputLeaves []*Term
+	for _, v := range o.inputs {
+		if ao, ok := v.(*AbsObj); ok {
+			bt := ao.bb.(*Tuple)
+			mn, mx := bt.el[0].(*Tuple), bt.el[1].(*Tuple)
+			for i := range mn.el {
+				extras = append(extras, mkLe(half, mkSub(mx.el[i].(*Term), mn.el[i].(*Term))))
+			}
+			flatten(ao.bb, &inputLeaves)
+			continue
+		}
+		flatten(v, &inputLeaves)
+	}
+	for _, t := range inputLeaves {
+		if t.op == "v" && t.sort == SReal {
+			extras = append(extras, mkLe(mkRealInt(-20), t), mkLe(t, mkRealInt(20)))
+		}
+	}
+	solved := false
+	if len(extras) > 0 {
+		r2 := solveQuery(append(append([]*Term{}, full...), extras...), []string{"robust model for replay"}, "", 20*time.Second, false)
+		if r2.status == "sat" {
+			model = r2.model
+			solved = true
+		}
+	}
+	if !solved {
+		r2 := solveQuery(full, []string{"full model for replay"}, "", 30*time.Second, false)
+		if r2.status == "sat" {
+			model = r2.model
+		}
 	}
 	fn := ct.fn
 	pkg := e.x.pkgByNm[ct.pkg]
@@ -609,6 +702,16 @@ func replayOnRealCode(e *Engine, o *Obligation) map[string]interface{} {
 	}
 	sort.Strings(names)
 	isParent := fn != nil && fn.Parent() != nil
+	searchSet := map[string]bool{}
+	searchTypes := map[string]string{}
+	var searchVars []string
+	for _, n := range strings.Fields(ct.opts["search"]) {
+		if _, ok := o.inputs[n]; ok {
+			searchSet[n] = true
+			searchVars = append(searchVars, n)
+		}
+	}
+	g.solid = ct.opts["solid-operands"] != ""
 	for _, n := range names {
 		v := o.inputs[n]
 		var t types.Type
@@ -618,6 +721,15 @@ func replayOnRealCode(e *Engine, o *Obligation) map[string]interface{} {
 					t = p.Type()
 				}
 			}
+		}
+		if searchSet[n] {
+			fmt.Fprintf(&body, "\t%s_model := %s\n\t_ = %s_model\n", n, g.lit(v, t), n)
+			if tp, ok := v.(*Tuple); ok {
+				searchTypes[n] = g.typeStr(tp.typ)
+			} else {
+				searchTypes[n] = "float64"
+			}
+			continue
 		}
 		fmt.Fprintf(&body, "\t%s := %s\n\t_ = %s\n", n, g.lit(v, t), n)
 	}
@@ -676,8 +788,9 @@ func replayOnRealCode(e *Engine, o *Obligation) map[string]interface{} {
 			}
 		}
 	}
+	var ev strings.Builder
 	for _, l := range ct.lets {
-		fmt.Fprintf(&body, "\t%s := %s\n\t_ = %s\n", l.name, g.goExpr(l.expr), l.name)
+		fmt.Fprintf(&ev, "\t\t%s := %s\n\t\t_ = %s\n", l.name, g.goExpr(l.expr), l.name)
 	}
 	// preconditions and the failing clause
 	var pre []string
@@ -710,10 +823,27 @@ func replayOnRealCode(e *Engine, o *Obligation) map[string]interface{} {
 			rec["reason"] = "skolem value for " + v.name + " not recorded"
 			return rec
 		}
-		fmt.Fprintf(&body, "\t%s := %s\n\t_ = %s\n", v.name, g.lit(sv, nil), v.name)
+		fmt.Fprintf(&ev, "\t\t%s := %s\n\t\t_ = %s\n", v.name, g.lit(sv, nil), v.name)
 	}
-	fmt.Fprintf(&body, "\tpre := %s\n", strings.Join(pre, " && "))
-	fmt.Fprintf(&body, "\tpost := %s\n", g.goExpr(clause.expr))
+	fmt.Fprintf(&ev, "\t\tpre = %s\n", strings.Join(pre, " && "))
+	fmt.Fprintf(&ev, "\t\tpost = %s\n", g.goExpr(clause.expr))
+	var cparams, cmodel []string
+	for _, n := range searchVars {
+		cparams = append(cparams, n+" "+searchTypes[n])
+		cmodel = append(cmodel, n+"_model")
+	}
+	fmt.Fprintf(&body, "\tcheck := func(%s) (pre, post bool) {\n%s\t\treturn\n\t}\n", strings.Join(cparams, ", "), ev.String())
+	fmt.Fprintf(&body, "\tpre, post := check(%s)\n", strings.Join(cmodel, ", "))
+	if len(searchVars) == 1 && (searchTypes[searchVars[0]] == "v3.Vec" || searchTypes[searchVars[0]] == "v2.Vec") {
+		// the model fixes the parameters; the point is searched on a grid around the shape
+		dim3 := searchTypes[searchVars[0]] == "v3.Vec"
+		fmt.Fprintf(&body, "\tif !(pre && !post) {\n\t\tlo, hi := verifRegion(r, %s_model)\n", searchVars[0])
+		if dim3 {
+			fmt.Fprintf(&body, "\t\tconst N = 44\n\tsearch:\n\t\tfor i := 0; i <= N; i++ {\n\t\t\tfor j := 0; j <= N; j++ {\n\t\t\t\tfor k := 0; k <= N; k++ {\n\t\t\t\t\tq := v3.Vec{lo[0] + (hi[0]-lo[0])*float64(i)/N, lo[1] + (hi[1]-lo[1])*float64(j)/N, lo[2] + (hi[2]-lo[2])*float64(k)/N}\n\t\t\t\t\tif a, b := check(q); a && !b {\n\t\t\t\t\t\tpre, post = a, b\n\t\t\t\t\t\tfmt.Printf(\"REPLAY-WITNESS %%v\\n\", q)\n\t\t\t\t\t\tbreak search\n\t\t\t\t\t}\n\t\t\t\t}\n\t\t\t}\n\t\t}\n\t}\n")
+		} else {
+			fmt.Fprintf(&body, "\t\tconst N = 400\n\tsearch:\n\t\tfor i := 0; i <= N; i++ {\n\t\t\tfor j := 0; j <= N; j++ {\n\t\t\t\tq := v2.Vec{lo[0] + (hi[0]-lo[0])*float64(i)/N, lo[1] + (hi[1]-lo[1])*float64(j)/N}\n\t\t\t\tif a, b := check(q); a && !b {\n\t\t\t\t\tpre, post = a, b\n\t\t\t\t\tfmt.Printf(\"REPLAY-WITNESS %%v\\n\", q)\n\t\t\t\t\tbreak search\n\t\t\t\t}\n\t\t\t}\n\t\t}\n\t}\n")
+		}
+	}
 	if nres >= 1 {
 		fmt.Fprintf(&body, "\tfmt.Printf(\"REPLAY-RESULT %%v\\n\", r)\n")
 	}
@@ -728,7 +858,11 @@ func replayOnRealCode(e *Engine, o *Obligation) map[string]interface{} {
 		fmt.Fprintf(&src, "\t\"%s/sdf\"\n", modulePath)
 	}
 	fmt.Fprintf(&src, "\tv2 \"%s/vec/v2\"\n\tv3 \"%s/vec/v3\"\n)\n", modulePath, modulePath)
-	src.WriteString(replayHelpers)
+	if pkg.Pkg.Name() == "sdf" {
+		src.WriteString(strings.ReplaceAll(replayHelpers, "SDFPKG_", ""))
+	} else {
+		src.WriteString(strings.ReplaceAll(replayHelpers, "SDFPKG_", "sdf."))
+	}
 	if pkg.Pkg.Name() != "sdf" {
 		src.WriteString("var _ sdf.SDF3\n")
 	}
